@@ -759,7 +759,15 @@ func (am *AccountingManager) persistActiveSession(session *AccountingSession) {
 		return
 	}
 
-	if err := os.WriteFile(path, data, 0600); err != nil {
+	// Write to a temporary file and rename it into place: a crash in the middle
+	// of rewriting the record (StopSession re-persists it) must not destroy the
+	// previous copy, or the session would never be recovered.
+	tmp := path + ".tmp"
+	if err := os.WriteFile(tmp, data, 0600); err != nil {
+		am.logger.Debug("Failed to persist session", zap.Error(err))
+		return
+	}
+	if err := os.Rename(tmp, path); err != nil {
 		am.logger.Debug("Failed to persist session", zap.Error(err))
 	}
 }
